@@ -10,6 +10,13 @@ Definition ref_request (op : refop) (plain : bool) (r : reference) : str * str :
   | OpBFetchRef => (m_get, url_blob plain r)
   end.
 
+Section Avail.
+Variable avail : str -> bool.
+Notation valid_digest := (Reference.valid_digest avail).
+Notation repo_parse := (Reference.repo_parse avail).
+Notation op_requests := (RefOps.op_requests avail).
+Notation wf_ref := (wf_ref avail).
+
 Lemma op_requests_use_resolved :
   forall vr op plain breg brepo s d reqs,
     ok_registry vr breg -> valid_repository brepo = true ->
@@ -21,15 +28,15 @@ Lemma op_requests_use_resolved :
                         snd mu = url_manifest plain (mkRef breg brepo d)) reqs /\
       after_last c_slash (snd (ref_request op plain r)) = r_reference r.
 Proof.
-  intros vr op plain breg brepo s d reqs Hbr Hbp H. unfold op_requests in H.
+  intros vr op plain breg brepo s d reqs Hbr Hbp H. unfold RefOps.op_requests in H.
   destruct (repo_parse vr breg brepo s) as [r|] eqn:Hp; [|discriminate].
-  destruct (repo_parse_result_in_base vr breg brepo s r Hp) as (Hreg & Hrepo & Hne & Hv).
+  destruct (repo_parse_result_in_base avail vr breg brepo s r Hp) as (Hreg & Hrepo & Hne & Hv).
   exists r. split; [reflexivity|]. split; [exact Hreg|]. split; [exact Hrepo|].
   assert (Hslot : after_last c_slash (url_manifest plain r) = r_reference r /\
                   after_last c_slash (url_blob plain r) = r_reference r).
   { assert (Hwf : wf_ref vr r).
     { unfold wf_ref. rewrite Hreg, Hrepo. split; [exact Hbr|]. split; [exact Hbp|]. right. exact Hv. }
-    destruct (url_slot vr plain r Hwf Hne) as (_ & _ & Hm & Hb & _). split; assumption. }
+    destruct (url_slot avail vr plain r Hwf Hne) as (_ & _ & Hm & Hb & _). split; assumption. }
   destruct Hslot as [Hm Hb].
   destruct op; cbn [op_requests_resolved] in H;
     try (destruct (valid_digest (r_reference r)); [|discriminate]);
@@ -50,13 +57,20 @@ Lemma op_requests_forms_agree :
     (forall d, valid_digest d = true ->
        op_requests vr op plain breg brepo (breg ++ [c_slash] ++ brepo ++ [c_at] ++ d) d0
        = op_requests vr op plain breg brepo d d0 /\
-       forall junk, contains c_slash junk = false -> contains c_at junk = false ->
+       (forall junk, contains c_slash junk = false -> contains c_at junk = false ->
          op_requests vr op plain breg brepo (junk ++ [c_at] ++ d) d0
-         = op_requests vr op plain breg brepo d d0).
+         = op_requests vr op plain breg brepo d d0) /\
+       (forall junk, contains c_at junk = false ->
+         op_requests vr op plain breg brepo (breg ++ [c_slash] ++ brepo ++ [c_colon] ++ junk ++ [c_at] ++ d) d0
+         = op_requests vr op plain breg brepo d d0)).
 Proof.
-  intros vr op plain breg brepo d0 Hr Hp. unfold op_requests. split.
-  - intros t Ht. rewrite (repo_parse_full_tag vr breg brepo Hr Hp t Ht), (repo_parse_tag vr breg brepo t Ht). reflexivity.
-  - intros d Hd. rewrite (repo_parse_full_digest vr breg brepo Hr Hp d Hd), (repo_parse_digest vr breg brepo d Hd).
-    split; [reflexivity|]. intros junk Hs Ha.
-    rewrite (repo_parse_tag_at_digest vr breg brepo junk d Hs Ha Hd). reflexivity.
+  intros vr op plain breg brepo d0 Hr Hp. unfold RefOps.op_requests. split.
+  - intros t Ht. rewrite (repo_parse_full_tag avail vr breg brepo Hr Hp t Ht), (repo_parse_tag avail vr breg brepo t Ht). reflexivity.
+  - intros d Hd. rewrite (repo_parse_full_digest avail vr breg brepo Hr Hp d Hd), (repo_parse_digest avail vr breg brepo d Hd).
+    split; [reflexivity|]. split.
+    + intros junk Hs Ha.
+      rewrite (repo_parse_tag_at_digest avail vr breg brepo junk d Hs Ha Hd). reflexivity.
+    + intros junk Ha.
+      rewrite (repo_parse_full_tag_digest avail vr breg brepo Hr Hp junk d Ha Hd). reflexivity.
 Qed.
+End Avail.
